@@ -148,7 +148,17 @@ func (w *World) TypIssues(repo string) []Issue {
 }
 
 // normIdents replaces concrete generated names that depend on the family (none today) — hook for stability.
-func normIdents(s string, w *World) string { return reConstVal.ReplaceAllString(s, "constant)") }
+func normIdents(s string, w *World) string {
+	s = reConstVal.ReplaceAllString(s, "constant)")
+	s = rePtrAssign.ReplaceAllString(s, "cannot use <literal> as pointer value in assignment")
+	s = reUnknownField.ReplaceAllString(s, "unknown field (built from a default's key) in struct literal")
+	return s
+}
+
+var (
+	rePtrAssign    = regexp.MustCompile(`cannot use .* as \*\w+ value in assignment`)
+	reUnknownField = regexp.MustCompile(`unknown field (<default key>)+ in struct literal of type .*`)
+)
 
 var reConstVal = regexp.MustCompile(`constant [0-9.e+\-]+\)`)
 
